@@ -111,7 +111,7 @@ func (e *FnEnc) modTargetsOf(x Expr, env *specEnv, src string) []modTarget {
 		switch t := typeUnder(s.T).(type) {
 		case *types.Slice:
 			ts := e.elemTargets(s.L[0], t.Elem())
-			if (n.Lo != nil || n.Hi != nil) && !isAggregateElem(t.Elem()) {
+			if !isAggregateElem(t.Elem()) { // s[..] is exactly the window of s, not the whole backing array
 				lo, hi := s.L[1], e.idxAdd(s.L[1], s.L[2])
 				if n.Lo != nil {
 					lo = e.idxAdd(s.L[1], env.asIdx(env.eval(n.Lo)))
@@ -328,7 +328,14 @@ func (e *FnEnc) encCall(cc *ssa.CallCommon, instr *ssa.Call, pos token.Pos) *Val
 		}
 		c = e.prog.contract(pp, calleeName)
 		isRepo = e.prog.isRepoPkg(pp)
-		names = append([]string{"recv"}, sigParamNames(cc.Signature())...)
+		names = []string{"recv"}
+		for i := 0; i < cc.Signature().Params().Len(); i++ {
+			n := cc.Signature().Params().At(i).Name()
+			if n == "" || n == "_" {
+				n = fmt.Sprintf("a%d", i)
+			}
+			names = append(names, n)
+		}
 		calleeName = pkgBase(pp) + "." + calleeName
 	} else if fn := cc.StaticCallee(); fn != nil {
 		for _, a := range cc.Args {
